@@ -7,6 +7,7 @@ import (
 
 	cc "gitlab.com/gomidi/midi/v2/internal/verifh/conccases"
 	cp "gitlab.com/gomidi/midi/v2/internal/verifh/concpairs"
+	"gitlab.com/gomidi/midi/v2/internal/verifh/disturb"
 	"gitlab.com/gomidi/midi/v2/internal/verifh/engine"
 	"gitlab.com/gomidi/midi/v2/mmc"
 	"gitlab.com/gomidi/midi/v2/sysex"
@@ -493,6 +494,7 @@ func mmcChecks(part, parts int) {
 
 func main() {
 	ctx = engine.Start("C18", "exploration")
+	disturb.Install(ctx)
 	if ctx.ReplayPath != "" {
 		if cp.Replay(ctx, ctx.LoadReplay(), "sysex", cc.Sysex()) {
 			ctx.Finish("replay")
